@@ -76,7 +76,7 @@ func (p c06) Regen(tier string, c *Case, tape []uint32) *Case {
 func (c06) build(src *gen.Source) *Case {
 	o := gen.FullOpts()
 	o.MaxDepth = 3
-	class := src.Intn(12)
+	class := src.Intn(13)
 	c := &Case{Kind: "parse", Reader: gosim.ReaderPlan{Kind: "scanner", FaultAt: -1}}
 	if src.Chance(1, 4) {
 		c.Reader.Unread = "multi"
@@ -132,6 +132,13 @@ func (c06) build(src *gen.Source) *Case {
 			c.Reader.DataErr = src.Chance(1, 2)
 		}
 		c.Note = "bufio-reader"
+	case class == 12:
+		// two independent callers at the same time (here-documents make the lexer use the printer)
+		o.HDBias = true
+		c = &Case{Kind: "parse2", Src: prog(), Src2: prog(), Note: "two-callers"}
+		if src.Chance(1, 3) {
+			c.Src2 = gen.Mutate(src, c.Src2)
+		}
 	case class == 9:
 		c = &Case{Kind: "eval", Src: gen.ArithExpr(src, 3), Note: "eval"}
 		c.Vars = [][2]string{{"y", src.Pick([]string{"2", "08", "", "abc", "0x10"})}}
@@ -178,6 +185,8 @@ func (c06) Run(t *testing.T, c *Case, s Sched, keepLog bool) *Obs {
 	switch c.Kind {
 	case "eval", "expand":
 		return RunEval(t, c, s, keepLog)
+	case "parse2":
+		return RunParse2(t, c, s, keepLog)
 	}
 	return RunParse(t, c, s, keepLog)
 }
@@ -195,6 +204,17 @@ func (c06) Judge(c *Case, obs []*Obs) []Finding {
 		for _, f := range simFindings(o, i, gosim.VDeadlock, gosim.VStepBudget, gosim.VReaderBudget, gosim.VCallerPanic,
 			gosim.VAliveAtReturn, gosim.VOpAfterReturn, gosim.VLeak) {
 			add(f)
+		}
+	}
+	if c.Kind == "parse2" {
+		solo := []string{SoloDump(c.Src), SoloDump(c.Src2)}
+		for i, o := range obs {
+			for k := 0; k < 2 && k < len(o.Parts); k++ {
+				if o.Parts[k] != solo[k] {
+					add(Finding{Class: "concurrent-callers-interfere", Obs: []int{i},
+						Detail: fmt.Sprintf("caller %d, running at the same time as an independent call, got a result that differs from the same call made alone: %s", k, firstDiff(solo[k], o.Parts[k]))})
+				}
+			}
 		}
 	}
 	if len(obs) < 2 {
